@@ -129,7 +129,7 @@ def _boundary_measure_bound(node, env0):
                      + (ma[0] if ma is not None else 1.0) * _boundary_measure_bound(node.b, env0))
     if isinstance(node, geo.Interval):
         return 2.0
-    if isinstance(node, (geo.Ball, geo.Polygonal)):
+    if isinstance(node, (geo.Ball, geo.Polygonal, geo.Polyhedron)):
         return float(node.bmeasure(env0, 1)[0])
     return 1.0
 
